@@ -37,10 +37,10 @@
  *           TOL = 16*eps*sum|terms|.  A-priori bound of the double evaluation: at most 5 roundings per term (gamma_5 = 2.5 eps)
  *           for the PID forms, 7 for the neuron output (3.5 eps), 4 for a weight update (2 eps): TOL has >= 4.5x head-room over
  *           the proof bound, the worst observed ratio is reported through VF_MAX.
- *           fuzzy gains on semi-exact steps: |K - ref| <= (n+4) eps (|base| + max|consequent of a firing rule|), n = number of
+ *           fuzzy gains on semi-exact steps: |K - ref| <= 2(n+4) eps (|base| + max|consequent of a firing rule|), n = number of
  *           firing rules: a-priori bound of an n-term inner product with weights that carry <= 1.5 eps relative error (sqrt based
- *           operator), one reciprocal, one product, one sum is (n+3) eps/2 of that scale, so the head-room is >= 2x the proof
- *           bound; the worst observed ratio is reported through VF_MAX.
+ *           operator), one reciprocal, one product, one sum is (n+3) eps/2 of that scale, so the head-room is >= 4x the proof
+ *           bound; worst observed ratio over seeds 1..5 (thorough): 0.13, reported through VF_MAX.
  *
  * Genuine-defect candidates this harness is expected to report on the unchanged tree (own stable keys, not worked around):
  *   pid_fuzzy/state-not-finite/all-joint-memberships-zero   bounded product: every J_ij = 0 -> 1/0 -> NaN gains/integrator
@@ -1266,7 +1266,7 @@ static void case_fuzzy(vf_rng *r, uint64_t q, int exact)
                 }
                 else
                 {
-                    q_t const tol = (q_t)(G.ne * G.nec + 4) * EPS * (qabs(f.base[gi]) + G.cabs[gi]) + 0x1p-1000Q;
+                    q_t const tol = 2 * (q_t)(G.ne * G.nec + 4) * EPS * (qabs(f.base[gi]) + G.cabs[gi]) + 0x1p-1000Q;
                     q_t const err = qabs((q_t)got[gi] - kq[gi]);
                     VF_COUNT("fuzzy-gains-within-tolerance");
                     VF_MAX("fuzzy-gain-error/tolerance", (double)(err / tol));
@@ -1540,7 +1540,7 @@ static void case_neuro(vf_rng *r, int exact)
 }
 
 /* ------------------------------------------------------------------ plan */
-static uint64_t vf_ncases(int tier) { return tier ? 480000 : 24000; }
+static uint64_t vf_ncases(int tier) { return tier ? 1600000 : 40000; }
 
 static void vf_case(uint64_t c, vf_rng *r)
 {
